@@ -94,7 +94,7 @@ fn gen_program(rng: &mut Rng, family: u8) -> Option<Prog> {
         b.st_abs_imm(0xF9, 0x01);
     } else {
         // BITS (0xF9), #mask: the key bit, sometimes together with other enable bits
-        let mask = *rng.pick(&[0x01u8, 0x01, 0x01, 0x31, 0x3F, 0x03]);
+        let mask = *rng.pick(&[0x01u8, 0x01, 0x01, 0x31, 0x3F, 0x03, 0xFF, 0x81, 0xC1, 0x41]);
         b.emit(&[0xFB, mask, 0x5F, 0xF9]);
         b.emit(&[0x08]); // EI
     }
@@ -241,6 +241,8 @@ fn interrupted_run(r: &Reference, t0: usize, triggers: &[usize], check_entry: bo
     let mut t = t0;
     let mut reti_trigger = false;
     let mut must_enter = 0u32;
+    // cycle of a trigger that was armed and latched and has not met an instruction end yet
+    let mut awaiting: Option<usize> = None;
     let mut continued = r.continued_at.map(|c| t0 > c).unwrap_or(true);
     while (m.state() == State::Running || (m.state() == State::Stopped && !continued)) && t < max {
         if triggers.contains(&t) {
@@ -260,13 +262,23 @@ fn interrupted_run(r: &Reference, t0: usize, triggers: &[usize], check_entry: bo
                 verif::set_fuel(None);
                 return Err(("C04:enabled-trigger-not-latched".into(), format!("key pressed at cycle {} with the enable bit and IE set, but no request is pending afterwards", t)));
             }
+            if armed && awaiting.is_none() {
+                awaiting = Some(t);
+            }
         }
         {
             // an instruction end that samples a latched request with IE set has to enter the routine
             let s = m.verif_snapshot();
-            if !s.pending_wait_for_memory && is_sampling_word(s.micro_address) && s.pending_edge_interrupt {
+            if !s.pending_wait_for_memory && is_sampling_word(s.micro_address) {
                 let ie = if s.pending_register_write == Some(4) { s.alu_output & IE != 0 } else { real::arch(&m).fr & IE != 0 };
-                if ie {
+                if let Some(tt) = awaiting.take() {
+                    // a request that was latched while enabled stays latched until an instruction end looks at it
+                    if ie && !s.pending_edge_interrupt {
+                        verif::set_fuel(None);
+                        return Err(("C04:latched-request-lost-before-instruction-end".into(), format!("key pressed at cycle {} with the enable bit and IE set and latched; at the next instruction end (cycle {}, IE still set) no request is pending", tt, t)));
+                    }
+                }
+                if s.pending_edge_interrupt && ie {
                     must_enter += 1;
                 }
             }
